@@ -81,6 +81,7 @@ def _fakes():
         def set_rng(self, rng):
             self.events.append(("set_rng",))
             self.rng_given = rng
+            self.fp_at_handover = fingerprint(rng)  # before the model consumes anything
 
         def step(self):
             self.ordinal += 1
@@ -211,7 +212,7 @@ def _harness(plan, log, stats, violation):
         if m.rng_given is None:
             violation("C17.no-generator", "harness", "model was never handed a generator")
             return
-        fp = fingerprint(m.rng_given)
+        fp = m.fp_at_handover
         key = (c["seed"], c["n_chains"], c["chain_index"])
         log.ev("fp", key, digest(fp))
         if key in fps:
